@@ -243,9 +243,14 @@ class SReal(Sym):
 class SymSet(Sym):
     """Finite set of ids as a characteristic function (python side). Mutable like a Python set."""
 
-    def __init__(self, member, sort=Id):
+    def __init__(self, member, sort=Id, arr=None):
         self.member = member
         self.sort = sort
+        self.arr = arr      # optional z3 array view (then equality is array equality: quantifier-free)
+
+    @staticmethod
+    def of_array(arr, sort=Id):
+        return SymSet(lambda x: arr[x], sort, arr)
 
     @staticmethod
     def fresh(ex, base, sort=Id):
@@ -257,7 +262,7 @@ class SymSet(Sym):
         return SymSet(lambda x: z3.BoolVal(False), sort)
 
     def copy(self):
-        return SymSet(self.member, self.sort)
+        return SymSet(self.member, self.sort, self.arr)
 
     def _m(self, other):
         if isinstance(other, SymSet):
@@ -291,6 +296,8 @@ class SymSet(Sym):
         raise Unsupported("membership of non-id in id set")
 
     def sym_eq(self, ex, other):
+        if self.arr is not None and isinstance(other, SymSet) and other.arr is not None:
+            return SBool(self.arr == other.arr)
         o = self._m(other)
         return SBool(self._fa(lambda x: self.member(x) == o(x)))
 
@@ -303,6 +310,7 @@ class SymSet(Sym):
             def update(*others):
                 for other in others:
                     o, cur = self._m(other), self.member
+                    self.arr = None
                     self.member = lambda x, cur=cur, o=o: z3.Or(cur(x), o(x))
             return NativeStub(update, "set.update")
         if name == "add":
@@ -310,6 +318,7 @@ class SymSet(Sym):
                 if not isinstance(x, SId):
                     raise Unsupported("set.add of non-id")
                 cur = self.member
+                self.arr = None
                 self.member = lambda y, cur=cur, e=x.e: z3.Or(cur(y), y == e)
             return NativeStub(add, "set.add")
         if name == "union":
@@ -328,14 +337,16 @@ class SymSet(Sym):
                 return SymSet(lambda x: z3.And(a(x), *[z3.Not(m(x)) for m in ms]), self.sort)
             return NativeStub(diff, "set.difference")
         if name == "copy":
-            return NativeStub(lambda: SymSet(a, self.sort), "set.copy")
+            return NativeStub(lambda: SymSet(a, self.sort, self.arr), "set.copy")
         if name == "clear":
             def clear():
+                self.arr = None
                 self.member = lambda x: z3.BoolVal(False)
             return NativeStub(clear, "set.clear")
         if name == "discard":
             def discard(x):
                 cur = self.member
+                self.arr = None
                 self.member = lambda y, cur=cur, e=x.e: z3.And(cur(y), y != e)
             return NativeStub(discard, "set.discard")
         raise Unsupported(f"set.{name}")
